@@ -31,8 +31,13 @@ pub static DEF: PropDef = PropDef {
     assumptions: &["chunk time spans stay below 30 days (registration cost is linear in hour buckets spanned)", "subscribers keep up (channel capacity 1024 is never reached)"],
 };
 
-fn scen(_spec: RunSpec) -> ScenFut {
+fn scen(spec: RunSpec) -> ScenFut {
     Box::pin(async move {
+        // a quarter of the runs hand every hash table an unlucky-but-legal key (see sim::adversarial_hash_pool)
+        let adv_hash = crate::core::run::mix2(spec.seed, 5) % 4 == 0;
+        if adv_hash {
+            sim::set_adversarial_hash(true);
+        }
         let inner = Arc::new(InMemory::new());
         let store: Arc<dyn ObjectStore> = SimStore::new(inner.clone(), 0);
         let local_meta = sim::w_bool(35);
@@ -63,7 +68,7 @@ fn scen(_spec: RunSpec) -> ScenFut {
             cfg.wal.enabled = false;
         }
         sim::log(format!(
-            "CONFIG catalog={} wal={wal_on} flush_rows={} flush_interval={:?} tiny_buffer={tiny_buffer} post_gates={post}",
+            "CONFIG catalog={} wal={wal_on} flush_rows={} flush_interval={:?} tiny_buffer={tiny_buffer} post_gates={post} adversarial_hash_keys={adv_hash}",
             if local_meta { "local" } else { "object-store" },
             cfg.flush_row_count,
             cfg.flush_interval
@@ -192,8 +197,19 @@ fn scen(_spec: RunSpec) -> ScenFut {
             }
         }
         let want = multiset(accepted.lock().unwrap().clone());
-        let got = multiset(stored);
-        let (missing, extra) = diff_multiset(&want, &got);
+        let got = multiset(stored.clone());
+        // one cause gets one signature: if the stored rows equal the accepted rows except for the sign of
+        // floating-point zeros, report exactly that (and compare the announcements modulo the same)
+        let norm0 = |v: &String| v.replace("f:8000000000000000", "f:0000000000000000");
+        let zero_sign_only = want != got && multiset(accepted.lock().unwrap().iter().map(norm0)) == multiset(stored.iter().map(norm0));
+        if zero_sign_only {
+            let (missing, extra) = diff_multiset(&want, &got);
+            sim::violation(
+                "C06/value-altered/sign-of-zero",
+                format!("{} rows were stored with the sign of a floating-point zero changed: accepted e.g. {:?}, stored e.g. {:?}", missing.len(), missing.iter().take(1).collect::<Vec<_>>(), extra.iter().take(1).collect::<Vec<_>>()),
+            );
+        }
+        let (missing, extra) = if zero_sign_only { (Vec::new(), Vec::new()) } else { diff_multiset(&want, &got) };
         if !missing.is_empty() {
             sim::violation("C06/accepted-row-missing", format!("{} accepted rows are not in any registered chunk, e.g. {:?}", missing.len(), missing.iter().take(2).collect::<Vec<_>>()));
         }
@@ -217,8 +233,10 @@ fn scen(_spec: RunSpec) -> ScenFut {
                 Err(_) => break,
             }
         }
-        let lg = multiset(legacy);
-        let tp = multiset(topic_rows.lock().unwrap().clone());
+        let canon = |v: Vec<String>| if zero_sign_only { multiset(v.iter().map(norm0)) } else { multiset(v) };
+        let got = canon(stored);
+        let lg = canon(legacy);
+        let tp = canon(topic_rows.lock().unwrap().clone());
         if lg != got {
             let (m, e) = diff_multiset(&got, &lg);
             sim::violation("C06/broadcast-differs/legacy", format!("legacy subscriber: {} stored rows not announced, {} announced rows not stored/repeated", m.len(), e.len()));
